@@ -151,6 +151,29 @@ func (valSet *ValidatorSet) Proposer() (proposer *Validator) {
 	return valSet.proposer.Copy()
 }
 
+// ProposerAddress returns the address of the proposer selected by the last IncrementAccum,
+// or nil when none is cached. The selection is not part of the serialized form.
+func (valSet *ValidatorSet) ProposerAddress() []byte {
+	if valSet == nil || valSet.proposer == nil {
+		return nil
+	}
+	return valSet.proposer.Address
+}
+
+// RestoreProposer re-installs the proposer that had been selected before the set was
+// serialized. An address that is not in the set leaves the set as it is.
+func (valSet *ValidatorSet) RestoreProposer(address []byte) {
+	if valSet == nil || len(address) == 0 {
+		return
+	}
+	for _, val := range valSet.Validators {
+		if bytes.Equal(val.Address, address) {
+			valSet.proposer = val
+			return
+		}
+	}
+}
+
 func (valSet *ValidatorSet) Hash() []byte {
 	if len(valSet.Validators) == 0 {
 		return nil
